@@ -125,6 +125,10 @@ func (d *DBFT[H]) checkCommit() {
 	}
 
 	d.block = d.CreateBlock()
+	if d.block == nil {
+		d.Logger.Warn("can't create block, waiting for more data")
+		return
+	}
 	hash := d.block.Hash()
 
 	d.Logger.Info("approving block",
